@@ -33,6 +33,9 @@ def scope(run, pid, extra=()):
 
 def c_dev10n(run):
     r10_args.check_none_default_tests(run, run.prog.analysed_functions())
+    for f in run.prog.analysed_functions():
+        if f.module.short not in ('base/animate', 'timing', 'stdlib/collections', 'base/graphics'):
+            r10_args.check_option_used(run, f)
     run.explanation = 'development run of R10n over the whole package'
 
 
@@ -111,6 +114,10 @@ def c07(run):
     fs = scope(run, 'C07')
     r2_none.run_r2(run, fs)
     r1_resolve.run_r1(run, fs)
+    # an accepted `check` (or tol) option is read: a constructor / conversion that ignores it skips or forces the validation
+    for f_ in prog.analysed_functions():
+        if f_.module.short not in ('base/animate', 'timing', 'stdlib/collections', 'base/graphics') and any(p_ in ('check', 'tol') for p_ in f_.allparams):
+            r10_args.check_option_used(run, f_)
     # dual-mode transl / transl2 behind the validating import: reached only with a vector argument
     if r20_shapes.check_dual_mode_calls(run, [f for f in prog.analysed_functions() if f.cls is not None]) < 3:
         run.error('R20: fewer than 3 one-argument transl / transl2 calls in class methods (anchor of the dual-mode rule not found in the current source)')
@@ -468,6 +475,8 @@ def _scope_rules(run, pid, r1=True, r2=True, r9=True, generic=True):
         for f in fs:
             if f.key not in seen:
                 r7_binary.check_duplicates(run, f)           # x - x, x == x, atan2(a, a), a paired loop variable that is never used
+                if f.module.short not in ('base/animate', 'timing', 'stdlib/collections', 'base/graphics'):
+                    r10_args.check_option_used(run, f)       # an option (check, unit, tol, twist ...) that is accepted but never read
         if not r1:
             r20_shapes.check_shapes(run, [f for f in fs if f.key not in seen])
         r15_closed.check_unchecked_sites(run, keys={f.key for f in fs if f.key not in seen})
